@@ -34,10 +34,10 @@ let lochex = function None -> "~" | Some l -> hex_of_bytes l
 
 let show_event (alen : int) (e : event) : string =
   match e with
-  | Ev (tid, i, msg, o, l, p) ->
+  | Ev (tid, i, msg, o, l, p, leaf) ->
     let pok = match p with Some (a, b) -> int_of_z a = int_of_z tid && int_of_z b = int_of_z i | None -> false in
-    Printf.sprintf "%d:%d@%d/%s/%s/%d" (int_of_z tid) (int_of_z i) (alen - List.length msg)
-      (z_to_string o) (lochex l) (if pok then 1 else 0)
+    Printf.sprintf "%d:%d@%d/%s/%s/%d/%s" (int_of_z tid) (int_of_z i) (alen - List.length msg)
+      (z_to_string o) (lochex l) (if pok then 1 else 0) (if leaf then "L" else "I")
   | EvDefault (tid, msg, o, l) ->
     Printf.sprintf "D%d@%d/%s/%s" (int_of_z tid) (alen - List.length msg) (z_to_string o) (lochex l)
   | EvError -> "ERR"
@@ -46,7 +46,7 @@ let run (t : tree) (addr : z list) (tys : z list) (withloc : bool) : string =
   let st = dispatch t addr tys withloc (z_of_int 1) in
   let evs = List.rev_map (show_event (List.length addr)) st.log in
   let body = if evs = [] then "-" else String.concat ";" evs in
-  let s = Printf.sprintf "%s m=%d" body (int_of_z st.matches) in
+  let s = Printf.sprintf "%s m=%d obj=%s" body (int_of_z st.matches) (z_to_string st.obj) in
   if withloc then s ^ " loc=" ^ lochex st.loc else s
 
 let rec walk (t : tree) (f : table -> unit) =
